@@ -33,6 +33,17 @@ func typeProbes[T signal.SignalTypes](name string) func(ch, length int) []Probe 
 		for i := 0; i < src.Len(); i++ {
 			src.SetSample(i, T(i%7))
 		}
+		// appends where source and destination share one backing array: the
+		// destination header is reset by a struct copy (no allocation)
+		big := signal.Alloc[T](signal.Allocator{Channels: ch, Length: 3*length + 8, Capacity: 3*length + 8})
+		for i := 0; i < big.Len(); i++ {
+			big.SetSample(i, T(i%11))
+		}
+		earlier := big.Slice(0, length)          // source window before the destination
+		winDst0 := big.Slice(length+2, length+3) // 1 frame long, spare capacity up to the end of big
+		winDst := big.Slice(length+2, length+3)
+		selfDst0 := big.Slice(1, 1+length) // length frames, capacity for more than twice that
+		selfDst := big.Slice(1, 1+length)
 		pool := signal.PoolAlloc[T](signal.Allocator{Channels: ch, Length: 0, Capacity: length + 4})
 		poolL := signal.PoolAlloc[T](al)
 		ps := []Probe{
@@ -66,6 +77,14 @@ func typeProbes[T signal.SignalTypes](name string) func(ch, length int) []Probe 
 				g := pool.Get()
 				g.Append(src)
 				pool.Put(g)
+			}},
+			{Name: "Append-within-capacity-from-earlier-window-of-same-storage[" + name + "]", Run: func() {
+				*winDst = *winDst0
+				winDst.Append(earlier)
+			}},
+			{Name: "self-Append-within-capacity[" + name + "]", Run: func() {
+				*selfDst = *selfDst0
+				selfDst.Append(selfDst)
 			}},
 			{Name: "pool-cycle-with-length[" + name + "]", Run: func() {
 				g1 := poolL.Get()
